@@ -1044,6 +1044,44 @@ func genHardening(g *core.Gen, r *core.Rand) {
 			}
 		}
 	}
+	for op := 0; op < 256; op++ {
+		g.Case("small-int", true, fmt.Sprintf("C13 smallint %d", op))
+	}
+	for _, v := range []int64{-2147483648, -1, 0, 1, 2, 3, 4, 536870912, 2147483647} {
+		g.Case("serialized-height-version", true, fmt.Sprintf("C13 shh %d", v))
+	}
+	// rollingMerkleTreeStore.add on consistent and inconsistent states
+	for i := 0; i < g.N(300, 2000); i++ {
+		n := uint64(r.Intn(1 << 12))
+		if r.Chance(1, 4) {
+			n = uint64(r.Pick(0, 1, 2, 3, 7, 8, 15, 16, 1<<20-1, 1<<20, 1<<40-1))
+		}
+		k := 0
+		for x := n; x > 0; x >>= 1 {
+			k += int(x & 1)
+		}
+		consistent := true
+		if r.Chance(1, 6) { // too few / too many roots for the count
+			k += int(r.Pick(-2, -1, 1))
+			consistent = false
+			if k < 0 {
+				k = 0
+			}
+		}
+		roots := make([]string, k)
+		for j := range roots {
+			roots[j] = hx(r.Bytes(32))
+		}
+		rs := "_"
+		if k > 0 {
+			rs = strings.Join(roots, ",")
+		}
+		cl := "rolling-add"
+		if !consistent {
+			cl = "rolling-add-inconsistent"
+		}
+		g.Case(cl, n > 0, fmt.Sprintf("C13 radd %d %s %s", n, rs, hx(r.Bytes(32))))
+	}
 	// A2: results are values
 	for n := 0; n <= g.N(33, 80); n++ {
 		g.Case("merkle-values", n >= 2, "C13 mvalues "+txsTok(leafList(r, n, 0, 0, true)))
